@@ -301,6 +301,13 @@ impl<'tcx> Cx<'tcx> {
             ty::Closure(did, _) => {
                 fields.push(("closure", s(tcx.def_path_str(*did))));
             }
+            ty::Ref(_, inner, _) => {
+                // promoted `&{closure}` of a non-capturing closure called in place
+                if let ty::Closure(did, _) = inner.kind() {
+                    fields.push(("closure", s(tcx.def_path_str(*did))));
+                    fields.push(("closure_ref", J::Bool(true)));
+                }
+            }
             _ => {}
         }
         let env = TypingEnv::post_analysis(tcx, body_did);
